@@ -6,6 +6,7 @@ A contract is registered by a sidecar module as
                  "havoc": {"data": gen_data, ...},    # gen(vc, name) -> arbitrary value
                  "inv": inv,                           # inv(vc, vars) -> bool   (optional)
                  "variant": variant,                   # variant(vc, vars) -> int (optional)
+                 "init": init,                         # init(vc, vars): state that reaches the loop (optional)
                  "head": head,                         # head(vc, vars, entering): ghost bookkeeping (optional)
                  "post": post,                         # post(vc, vars): after one body execution (optional)
              }}
@@ -71,11 +72,28 @@ def register_loops(I, loops: DictV):
         I.world.loopspecs[id(nodes[ordinal])] = d
 
 
+def _snapshot(v):
+    """hooks see the values of mutable locals as they are at the hook, not later"""
+    from .values import BytearrayV, SetV, SymListV
+
+    if isinstance(v, BytearrayV):
+        return BytearrayV(v.rope)
+    if isinstance(v, ListV):
+        return ListV(v.items)
+    if isinstance(v, SymListV):
+        return SymListV(v.prefix, v.items)
+    if isinstance(v, SetV):
+        return SetV(v.items, v.frozen)
+    if isinstance(v, DictV):
+        return DictV(v.pairs, v.default_factory)
+    return v
+
+
 def _vars_dict(I, env, extra=None):
     d = DictV()
     for k, v in env.vars.items():
         if not k.startswith("$"):
-            d.pairs.append([k, v])
+            d.pairs.append([k, _snapshot(v)])
     for k, v in (extra or {}).items():
         d.pairs.append([k, v])
     return d
@@ -106,6 +124,9 @@ def cut_loop(I, node, env, spec):
     if is_for:
         seq = I.eval(node.iter, env)
 
+    init = spec.get("init")
+    if init is not None:
+        I.call(init, [vc, _vars_dict(I, env, {"$iter": seq} if is_for else None)], {}, None)
     if inv is not None:
         ctx.check(_call_bool(I, inv, [vc, _vars_dict(I, env, {"$iter": seq} if is_for else None)]), f"{name}.inv_init", where)
 
